@@ -276,8 +276,9 @@ class Ctx:
         self.checker_cmd = ""
         self.notes = []
         (BUILD / "replay").mkdir(parents=True, exist_ok=True)
-        for old in (BUILD / "replay").glob(prop + "-*.txt"):
-            old.unlink()
+        if "--replay" not in sys.argv:      # a replay run must not delete the file it is asked to replay
+            for old in (BUILD / "replay").glob(prop + "-*.txt"):
+                old.unlink()
 
     # ---- logging
     def log(self, *a):
